@@ -899,7 +899,7 @@ def run(chk: common.Check):
     # events): every pop of end-to-end runs of the real simulator must return the earliest queued event
     from harness.suites import _e2e_common as e2e
 
-    e2e.run_suite(chk, "C16", n_quick=100, n_thorough=1500, streams=("regular", "retime", "batch", "retime", "dag"))
+    e2e.run_suite(chk, "C16", n_quick=250, n_thorough=2500, streams=("regular", "retime", "batch", "retime", "dag"))
     e2e_rule = chk.rule
     chk.exhaustive = False
     chk.rule = (
